@@ -1,6 +1,6 @@
 SPECIFICATION GenSpec
 CONSTANTS Kinds = {"buf", "hmeta", "reply", "rawdata", "geninfo", "metabuf", "cxxref", "bare"}
-  NH = 3 NObj = 2 Max = 20 MaxExtra = 1 MaxTries = 2 AsFound = FALSE
+  NH = 3 NObj = 2 Max = 20 MaxExtra = 1 MaxTries = 1 AsFound = FALSE
 CONSTRAINT NarrowGap
 VIEW Skel
 ACTION_CONSTRAINT Emit
